@@ -637,3 +637,42 @@ func gateScenarios(r *rng, sample int) []*scenario {
 	}
 	return out
 }
+
+
+// every vocabulary type served by the handler, with hidden recipients where the type admits them
+func genGetTypes(r *rng) []*scenario {
+	t := loadTables()
+	var out []*scenario
+	for i, ty := range t.Types {
+		if ty.Typeless {
+			continue
+		}
+		w := baseWorld(r)
+		id := fmt.Sprintf("%s/typed/%d", local, i)
+		v := jmap{"@context": allContexts, "type": ty.Name, "id": id}
+		hasField := func(n string) bool {
+			for _, f := range ty.Fields {
+				if f.GoName == n {
+					return true
+				}
+			}
+			return false
+		}
+		if hasField("ActivityStreamsName") {
+			v["name"] = "a " + ty.Name
+		}
+		if hasField("ActivityStreamsBto") {
+			v["bto"] = actorID(remote, "carol")
+			v["bcc"] = []interface{}{actorID(remote, "dave"), actorID(remote, "erin")}
+		}
+		if hasField("ActivityStreamsObject") && r.chance(1, 2) {
+			v["object"] = jmap{"type": "Note", "id": id + "/o", "bto": actorID(remote, "erin")}
+		}
+		w.Store[id] = v
+		w.Owned[id] = true
+		w.Clock = int64(r.intn(2000000000)) - 100000000
+		out = append(out, &scenario{Family: "get:type", Cfg: defaultCfg(), World: w, Entry: "handler", Method: "GET", Accept: apContentType,
+			Path: fmt.Sprintf("/typed/%d", i), Tags: map[string]bool{}})
+	}
+	return out
+}
